@@ -5,6 +5,7 @@
 From PowHsm Require Import Model.Gather.
 From PowHsm Require Import Model.Verify.
 From PowHsm Require Import Proofs.C15.
+From PowHsm Require Import Proofs.SrcEquivAttestationM.
 Open Scope N_scope.
 
 (* UI attestation paging: a device serving n <= 4 pages yields exactly the message, by requests for pages 0..n-1 in order *)
@@ -961,5 +962,22 @@ Theorem C15_gather_ledger_honest_legacy :
              fs_ok := fs'
            |} = Some (ledger_elements dev att ui_msg ui_sig ui_hash sg_msg sg_sig sg_hash).
 Proof. exact (@gather_ledger_honest_legacy). Qed.
+
+(* get_powhsm_attestation of the source (PowHsmAttestation.run: signature, paged message and envelope with the legacy-header handling, application hash) as translated = the model's gathering on every world (fewer than 256 pages) *)
+Theorem C15_source_powhsm_attestation_is_model :
+  forall (fuel : nat) (self : Val.pv) (ud_hex : str) (w : world),
+         (S (Datatypes.length (script w)) <= fuel)%nat ->
+         (Datatypes.length (script w) <= 256)%nat ->
+         SrcM.srcm_HSM2Dongle__get_powhsm_attestation fuel self (Val.VStr ud_hex) w =
+         SrcEquivDongleM.mres att_pv (SrcEquivHeartbeatM.on_hex get_powhsm_attestation ud_hex w).
+Proof. exact (@srcm_get_powhsm_attestation_ok). Qed.
+
+(* get_ui_attestation of the source as translated = the model's on every world, page limit included *)
+Theorem C15_source_ui_attestation_is_model :
+  forall (fuel : nat) (self : Val.pv) (ud_hex : str) (w : world),
+         (5 <= fuel)%nat ->
+         SrcM.srcm_HSM2Dongle__get_ui_attestation fuel self (Val.VStr ud_hex) w =
+         SrcEquivDongleM.mres ui_att_pv (SrcEquivHeartbeatM.on_hex get_ui_attestation ud_hex w).
+Proof. exact (@srcm_get_ui_attestation_ok). Qed.
 
 Example C15_nonvacuous : True. Proof. exact I. Qed. (* closed examples in Proofs/C15.v: Toy.genuine_device_verifies (pages -> parse -> elements -> save -> load -> validate -> verify with toy oracles), Toy.genuine_device_empty_auth_verifies, Toy.alterations_fail (16 single-byte alterations, altered message, truncated envelope), ui_three_pages, ui_five_pages_fail, envelope_example *)
